@@ -358,4 +358,90 @@ theorem check_after (st : St σ) (ci out msg v rest : Str) (pad : Nat) (hc : Cle
   rw [hpay] at h2
   exact check_compose st _ _ ci Y _ out _ h1 h2 hne
 
+/-! ### banner after the COMPLETE last line: `pre` extra empty lines before, `post` after, no fresh prompt -/
+
+theorem nls_add (a b : Nat) : nls a ++ nls b = nls (a + b) := by
+  simp [nls, List.replicate_append_replicate]
+
+theorem nls_succ (n : Nat) : nls (n + 1) = '\n' :: nls n := by simp [nls, List.replicate_succ]
+
+theorem bannerText_snoc (msg : Str) : bannerText msg = (bannerHead ++ msg ++ lit "\n***") ++ ['\n'] := by
+  have : bannerTail = lit "\n***" ++ ['\n'] := by decide
+  rw [bannerText_eq, this]; simp
+
+theorem check_afterLine (st : St σ) (ci out msg : Str) (pre post : Nat) (hc : CleanCmd ci) (ho : CleanOut out)
+    (hm : CleanMsg msg)
+    (hp : st.pend = ci ++ '\n' :: out ++ nls pre ++ bannerText msg ++ nls post ++ prompt)
+    (ha : st.reloadActive = true) :
+    ∃ R, neLines R = neLines out ∧
+      check ci st = (checkRes ci out R (oneMinute msg), addWarns (setPend st []) (warnsOf ci out)) := by
+  obtain ⟨u, hu⟩ := echo_out_endsNL ci out ho
+  have hnu : noPH u = true := noPH_drop_last u (by rw [← hu]; exact noPH_echo_out ci out hc ho)
+  -- the complete line's line feed joins the empty lines in front of the banner
+  have hp' : st.pend = (u ++ nls (pre + 1) ++ bannerText msg ++ nls post) ++ prompt ++ [] := by
+    rw [hp, hu, nls_succ]; simp
+  let Y := u ++ nls (pre + 1) ++ bannerText msg ++ nls post
+  have hY : ∃ u', Y = u' ++ ['\n'] := by
+    cases post with
+    | zero => exact ⟨u ++ nls (pre + 1) ++ (bannerHead ++ msg ++ lit "\n***"), by
+        show u ++ nls (pre + 1) ++ bannerText msg ++ nls 0 = _
+        rw [bannerText_snoc]; simp [nls]⟩
+    | succ k => exact ⟨u ++ nls (pre + 1) ++ bannerText msg ++ nls k, by
+        show u ++ nls (pre + 1) ++ bannerText msg ++ nls (k + 1) = _
+        rw [← nls_add k 1]; simp [nls]⟩
+  have hnY : noPH Y = true := by
+    show noPH (u ++ nls (pre + 1) ++ bannerText msg ++ nls post) = true
+    rw [noPH_banner _ _ _ hm.noNL, noPH_append_nls, hnu, router_not_prefix_nls, noPH_nls']; rfl
+  have h1 := getOutput_lines st Y [] hY hp' hnY rfl
+  have hbellu : '\x07' ∉ u := by
+    intro h
+    have : '\x07' ∈ ci ++ '\n' :: out := by rw [hu]; exact List.mem_append_left _ h
+    rcases List.mem_append.1 this with h | h
+    · exact hc.noBell h
+    · rcases List.mem_cons.1 h with h | h
+      · cases h
+      · exact ho.noBell h
+  have hf : bannerFind Y = some (u ++ nls (pre + 1), msg, nls post) :=
+    bannerFind_banner _ _ _ (by
+      intro h; rcases List.mem_append.1 h with h | h
+      · exact hbellu h
+      · exact bell_not_mem_nls _ h) hm.ne hm.noNL
+  -- u = ci ++ w, and the cleaned text is the echo line followed by the output and empty lines
+  have hcu : ∃ R, u ++ nls (pre + 1) ++ nls post = ci ++ '\n' :: R ∧ neLines R = neLines out := by
+    rcases ho.endsNL with rfl | ⟨o', rfl⟩
+    · have hci : u = ci := (List.append_cancel_right (hu : ci ++ ['\n'] = u ++ ['\n'])).symm
+      refine ⟨nls pre ++ nls post, by rw [hci, nls_succ]; simp, ?_⟩
+      rw [nls_add, neLines_nls]; rfl
+    · have hu' : u = ci ++ '\n' :: o' := by
+        have : (ci ++ '\n' :: o') ++ ['\n'] = u ++ ['\n'] := by rw [← hu]; simp
+        exact (List.append_cancel_right this).symm
+      refine ⟨o' ++ nls (pre + 1) ++ nls post, by rw [hu']; simp, ?_⟩
+      rw [List.append_assoc, nls_add, show pre + 1 + post = (pre + post) + 1 by omega, nls_succ,
+        neLines_append_nl, neLines_nls, neLines_append_nl]
+      have : neLines ([] : Str) = [] := by decide
+      simp [this]
+  obtain ⟨R, hpay, hne⟩ := hcu
+  have hcne : ∃ w, u = ci ++ w := by
+    rcases ho.endsNL with rfl | ⟨o', rfl⟩
+    · exact ⟨[], by rw [(List.append_cancel_right (hu : ci ++ ['\n'] = u ++ ['\n'])).symm]; simp⟩
+    · refine ⟨'\n' :: o', ?_⟩
+      have : (ci ++ '\n' :: o') ++ ['\n'] = u ++ ['\n'] := by rw [← hu]; simp
+      exact (List.append_cancel_right this).symm
+  obtain ⟨w, huw⟩ := hcne
+  have hb1 : blank (u ++ nls (pre + 1) ++ nls post) = false := by
+    rw [huw, blank_append, blank_append, blank_append, hc.not_blank]; rfl
+  have hb2 : (!(u ++ nls (pre + 1)).isEmpty && blank (nls post)) = true := by
+    have : (u ++ nls (pre + 1)).isEmpty = false := by
+      rw [huw]; have := hc.ne
+      cases ci with
+      | nil => exact absurd rfl this
+      | cons _ _ => rfl
+    rw [this, blank_nls]; rfl
+  refine ⟨R, hne, ?_⟩
+  have h2 : stripReloadBanner Y (setPend st []) =
+      (.ok (u ++ nls (pre + 1) ++ nls post, oneMinute msg), setPend st []) :=
+    strip_try_empty _ _ _ _ _ (by simpa using ha) hf hb1 hb2 rfl
+  rw [hpay] at h2
+  exact check_compose st _ _ ci Y _ out _ h1 h2 hne
+
 end NA.Ios
